@@ -16,7 +16,7 @@ from harness.core import Check
 PID = 'C20'
 Z_MODELS = ['MergeJoin', 'HashJoin', 'SetOps', 'Dedup', 'GroupBy', 'ExtSort']
 # header depends on the data (column values become fields): only "does not raise" is checked for the header
-DATA_DEPENDENT_HEADER = {'transpose', 'pivot', 'recast', 'unpackdict(sample)', 'flatten', 'unflatten', 'facet', 'fromcolumns',
+DATA_DEPENDENT_HEADER = {'transpose', 'pivot', 'recast', 'recast(samplesize=1)', 'unpackdict(sample)', 'unpackdict(samplesize=1)', 'flatten', 'unflatten', 'facet', 'fromcolumns',
                          'fromdicts(list)'}
 NO_HEADER = {'values', 'values(multi)', 'data', 'dicts', 'records', 'namedtuples', 'flatten'}
 # addcolumn: the 3 column values still make 3 rows (padded with missing); transpose: the 3 remaining fields become rows
@@ -24,6 +24,9 @@ UNARY_ROWS = {'aggregate(key=None)': 1, 'aggregate(key=None,sum)': 1, 'aggregate
 # skip(1) skips the header row itself: nothing at all is left of a header-only table, by definition
 EMPTY_OK = {'skip'}
 COUNT_FREE = {'merge', 'unflatten', 'fromcolumns', 'fromdicts(list)', 'facet'}
+
+
+RECT = {}
 
 
 def base_name(n):
@@ -49,6 +52,12 @@ def run_position(e, na, nb):
         if e['name'] in EMPTY_OK:
             return None, None, 0
         return 'delivered nothing at all (not even a header)', None, None
+    odd = [tuple(r) for r in p1[1:] if len(r) != len(p1[0])]
+    if (na, nb) == (3, 3):
+        RECT[e['name']] = not odd           # the operator delivers rectangular rows on ordinary input
+    elif odd and RECT.get(e['name']) and e['name'] not in DATA_DEPENDENT_HEADER:
+        # rows made of the other input's cells and fill values still have the header's width
+        return 'data row(s) %r do not have the width of the header %r' % (odd[:2], tuple(p1[0])), None, None
     return None, tuple(p1[0]), len(p1) - 1
 
 
